@@ -7,10 +7,16 @@ CONSTANTS
   Vals = {1}
   MaxDepth = 2
   NR = 1
+  NT = 1
+  Writers = {1}
+  RdThreads = {1}
   MapInit = 10
+  UsedInit = 0
   Chunk = 10
   PutCost = 1
   TxnBeforeGate = TRUE
+  NestedCloseClearsMark = FALSE
+  ReadNotCounted = FALSE
   BatchMax = 1
   MaxOps = 45
   WithReads = FALSE
